@@ -18,6 +18,11 @@ CONSTANTS
   LiveKind = 0
   MaxTicks = 0
   ResolveOnDerive = FALSE
+  NWriters = 1
+  MaxTrees = 1
+  ShareByWriter = FALSE
+  Ctxs = {}
+  CtxAwareLock = FALSE
   MaxH = 100000
   MaxLogs = 0
   MaxGroups = 0
